@@ -343,6 +343,33 @@ def run_case(case, seed):
                     seen.add(("idem", site))
                     viol.append(dict(oracle="idempotent", key=dict(site=site, when="projection"),
                                      detail="P(P(y)) != P(y) for y=%s" % (list(pt),)))
+    # integer-valued inputs stored in an integer dtype ("for all y"): thresholds and radii must not be truncated to y's dtype
+    if not fft_inside and not viol:
+        try:
+            P, Gc, sh = build(prog, shape, False)
+        except Skip:
+            P = None
+        if P is not None:
+            n = dense.prod(sh)
+            for idt in (np.int64, np.int32):
+                ipts = itertools.product((-2, -1, 0, 1, 3) if (n <= 2 and idt is np.int64) else ((-2, 0, 3) if n <= 4 else (-2, 3)), repeat=n)
+                for pt in ipts:
+                    y = np.array(pt, dtype=idt).reshape(sh)
+                    try:
+                        x = np.asarray(P(alpha, y))
+                    except Exception:
+                        break      # refusing an integer array is loud, hence acceptable
+                    evals += 1
+                    if list(x.shape) != list(sh):
+                        continue
+                    d = Gc.defect(x.astype(np.float64 if not np.iscomplexobj(x) else np.complex128), (y.astype(np.float64) - x) / alpha)
+                    if not d <= TOL:
+                        viol.append(dict(oracle="optimality-certificate", key=dict(site=site, when="integer-dtype input"),
+                                         detail="y=%s (%s) alpha=%s: x=%s (%s) is not the minimiser, misses the subdifferential by %.3g; program %s" % (
+                                             list(pt), np.dtype(idt).name, alpha, np.array2string(x.ravel(), precision=4), x.dtype, d, prog)))
+                        break
+                if viol:
+                    break
     return dict(states=evals, transitions=evals, traces=evals, nontrivial=moved > 0,
                 outcome="ok" if not viol else "violation:" + viol[0]["oracle"], viol=viol)
 
